@@ -217,6 +217,10 @@ def _run(pr: PropertyRun, mod) -> int:
             pr.canaries_verified.append(name)
         # (a canary that is neither refuted nor verified still shows the pipeline is not vacuous: the false clause was NOT proved)
 
+    from . import astcheck as _ac
+    for r in main:
+        if r.status == "sat" and r.vc.name in _ac.OPEN:
+            r.status = "unknown: code shape not recognized by the syntactic rule (" + (r.vc.note or "")[:160] + ")"
     refuted = [r for r in main if r.status == "sat"]
     unknown = [r for r in main if r.status not in ("sat", "unsat")]
     if pr.canaries_empty and not refuted and not unknown and not pr.undecided:
